@@ -42,7 +42,7 @@ type Stats struct {
 }
 
 func NewStats() *Stats {
-	return &Stats{Counters: map[string]int64{}, Sets: map[string]map[uint64]bool{}, MaxSamp: 6, Notes: map[string]string{}}
+	return &Stats{Counters: map[string]int64{}, Sets: map[string]map[uint64]bool{}, MaxSamp: 6, Notes: map[string]string{}, SetCap: 600_000}
 }
 
 func (s *Stats) Inc(k string)          { s.Counters[k]++ }
@@ -58,8 +58,10 @@ func (s *Stats) Distinct(set string, h uint64) {
 		m = map[uint64]bool{}
 		s.Sets[set] = m
 	}
-	if len(m) < 4_000_000 {
+	if len(m) < s.SetCap {
 		m[h] = true
+	} else {
+		s.Counters["distinct_set_saturated."+set] = 1
 	}
 }
 func (s *Stats) Sample(v interface{}) {
